@@ -11,7 +11,8 @@ static void row2(const char *name, f2 f, int Z, int lo, int hi) {
   for (int i = 0; i < n; i++) fprintf(OUT, "%s%d", i ? "," : "", ok[i]);
   fputs("],\"v\":[", OUT);
   for (int i = 0; i < n; i++) { if (i) fputc(',', OUT); jd(v[i]); }
-  fputs("]}\n", OUT); free(ok); free(v);
+  int nd = 0, ndm = 0; for (int m = lo; m <= hi; m++) { double w = f(Z, m, NULL); if (memcmp(&w, &v[m - lo], 8)) { if (!nd) ndm = m; nd++; } }      /* the same cells without an error slot */
+  fprintf(OUT, "],\"nd\":%d,\"ndm\":%d}\n", nd, ndm); free(ok); free(v);
 }
 static double w1(f1 f, int Z, xrl_error **e) { return f(Z, e); }
 static f1 cur1; static double adapt1(int Z, int m, xrl_error **e) { (void)m; return w1(cur1, Z, e); }
